@@ -450,6 +450,11 @@ func (s *appState) op(d *driver, f []string) string {
 			return "err:hw:" + hx(err.Error())
 		}
 		return s.hw.recvLine(d, s, f[1:])
+	case "acth":
+		if err := s.ensureHW(); err != nil {
+			return "err:hw:" + hx(err.Error())
+		}
+		return s.hw.actLine(d, s, f[1:])
 	case "msgh":
 		if err := s.ensureHW(); err != nil {
 			return "err:hw:" + hx(err.Error())
